@@ -12,7 +12,7 @@
    naming particle p, [named es] = the particles named (C12/Spec.v). *)
 From Coq Require Import List NArith ZArith Bool String Ascii Reals.
 From T4V Require Import Base.Str Base.Scalar C12.Text C12.Model C12.Spec
-     C12.Cards C12.ProofsExpand C12.ProofsText C12.ProofsCells C12.ProofsDeck C12.ProofsCards C12.Examples.
+     C12.Cards C12.ProofsExpand C12.ProofsText C12.ProofsCells C12.ProofsDeck C12.ProofsCards C12.LinkC06 C12.Examples.
 Import ListNotations.
 Open Scope string_scope.
 Open Scope list_scope.
@@ -314,6 +314,26 @@ Theorem C12_like_written_local_zero_iff :
 Proof. exact like_written_local_zero_iff. Qed.
 Print Assumptions C12_like_written_local_zero_iff.
 
+(* the lattice form of FILL is read locally too (premise of li_num): ranges, as
+   many plain universe numbers as the ranges hold, numeric parameters - whatever
+   follows, as long as it does not start like a number. So a FILL = i:j ... on a
+   card of a LIKE chain is inside C12_like_written_local_zero_iff. (Array entries
+   written with nR are not covered by this lemma.) *)
+Theorem C12_fill_array_read_locally :
+  forall (T : Type) (Sc : Scalar T) (P : prims T) (t r0 : string) (rs : list string)
+         (u0 : string) (us params : list string) (bnds : list (Z * Z)) (fp : trparams T),
+    String.prefix "imp" t = false -> contains_sub "fill" t = true ->
+    forallb (contains_char ":") (r0 :: rs) = true -> parse_ranges (r0 :: rs) = Ok bnds ->
+    contains_char ":" u0 = false -> Forall (plain_value P) (u0 :: us) ->
+    Z.of_nat (List.length (u0 :: us)) = bounds_size bnds ->
+    forallb is_numstart params = true ->
+    fill_params Sc P false (contains_char "*" t) params = Ok fp ->
+    forall rest, hd_not_num rest -> forall k,
+      exists k', kw_step Sc P t (((r0 :: rs) ++ (u0 :: us) ++ params) ++ rest) k
+                 = Ok (k', List.length ((r0 :: rs) ++ (u0 :: us) ++ params)).
+Proof. exact @fillarr_local. Qed.
+Print Assumptions C12_fill_array_read_locally.
+
 (* explicit card *)
 Theorem C12_cell_card_zero_iff :
   forall (P : prims R) (imp_cards : list (string * list string)) (cards : list card)
@@ -354,6 +374,37 @@ Theorem C12_generated_converted_iff :
               (converted Sc g = true <-> is_zero Sc c = false).
 Proof. exact @generated_converted_iff. Qed.
 Print Assumptions C12_generated_converted_iff.
+
+(* LINKED with C06 (read-only: C06.Model.develop_lattice_with and C06's location
+   theorem develop_lattice_located_ranges): a LAT cell c of the C12 model and
+   C06's view lc of it (same universe, same FILL array). Under C06's hypotheses
+   the development succeeds, there is exactly one element per non-zero array
+   entry, every element carries the lattice cell's importance and universe
+   (element_cell: what cell_transform copies; C06's model has no importance
+   field - that is where the link stops), and an element, or any cell pot_fill
+   generates from it, passes the conversion filter iff the lattice cell is a
+   level-0 cell of non-zero importance: nothing of a zero-importance lattice is
+   converted. *)
+Theorem C12_lattice_elements_converted_iff_linked :
+  forall (c : cell (T:=R)) (lc : L.lat_cell (T:=R)) (vecs : list (L.vec (T:=R)))
+         (bs : list (Z * Z)) (spec : list Z),
+  same_lattice c lc bs spec ->
+  bs <> [] -> C06.ProofsIndex.wf_bounds bs -> Z.of_nat (List.length spec) = L.size bs ->
+  (List.length vecs <= List.length bs)%nat ->
+  Forall C06.ProofsIndex.trivial_range (skipn (List.length vecs) bs) ->
+  C06.ProofsDevelop.cell_shape_ok lc ->
+  exists elems,
+    L.develop_lattice_with RS (L.Ok vecs) lc = L.Ok elems /\
+    map (L.ne_index (T:=R)) elems
+      = map fst (filter C06.ProofsDevelop.nonzero (combine (L.indices bs) spec)) /\
+    forall e, In e elems ->
+      c_imp (element_cell c e) = c_imp c /\ c_u (element_cell c e) = c_u c /\
+      (L.ne_fill e = None ->
+       (converted RS (element_cell c e) = true <-> is_zero RS c = false /\ c_u c = 0%Z)) /\
+      (forall leaf, converted RS (fill_copy (element_cell c e) leaf) = true
+                    <-> is_zero RS c = false /\ c_u c = 0%Z).
+Proof. exact lattice_elements_converted_iff. Qed.
+Print Assumptions C12_lattice_elements_converted_iff_linked.
 
 (* the writer's test "key in skipped_cells" never fires on a converted cell:
    the two filters agree *)
@@ -413,6 +464,22 @@ Theorem C12_void_card_text :
         (Explicit (" " ++ m)%string (" " ++ G ++ " ")%string, opts)).
 Proof. exact @void_card_text. Qed.
 Print Assumptions C12_void_card_text.
+
+(* ... and with the options glued to the closing parenthesis that ends the
+   geometry, "name material geometry)options" (sep = ")"; sep = " " is the card
+   above) *)
+Theorem C12_void_card_text_sep :
+  forall (T : Type) (Sc : Scalar T) (P : prims T) (sep : ascii) (name m G opts : string) (z : T),
+    (sep = " "%char \/ sep = ")"%char) ->
+    all_digits name = true -> is_empty name = false ->
+    all_chars nos m = true -> all_chars nonblank m = true -> is_empty m = false ->
+    fl P m = Some z -> seqb Sc z (s0 Sc) = true ->
+    all_chars nos G = true -> starts_option opts = true ->
+    card_of_text Sc P (name ++ " " ++ m ++ " " ++ G ++ String sep opts) =
+    Ok (Z.of_N (parse_digits name 0%N),
+        (Explicit (" " ++ m)%string (" " ++ G ++ String sep "")%string, opts)).
+Proof. exact @void_card_text_sep. Qed.
+Print Assumptions C12_void_card_text_sep.
 
 Theorem C12_nonvoid_card_text :
   forall (T : Type) (Sc : Scalar T) (P : prims T) (name m rho G opts : string) (z : T),
